@@ -240,8 +240,13 @@ class _FuncAnalysis:
                     env[t.id] = set()
                     self.kind[t.id] = 'scalar'
                 else:
-                    self.mutate(env.get(t.id, set()), st, 'augmented assignment (in-place for arrays, '
-                                'Quantities, lists, dicts)')
+                    tg = env.get(t.id, set())
+                    if tg and all(x[0] == 'global' and not x[2] and self._immutable_global(x[1]) for x in tg):
+                        # the local is bound to a module-level tuple / str / number / frozenset: `+=` builds a new object
+                        env[t.id] = set()
+                    else:
+                        self.mutate(tg, st, 'augmented assignment (in-place for arrays, '
+                                    'Quantities, lists, dicts)')
             else:
                 base = self.vals(t.value, env)
                 self.mutate(base, st, 'augmented store')
@@ -362,6 +367,31 @@ class _FuncAnalysis:
                 ev = Event(t, self.fi.qualname, self.fi.path, getattr(node, 'lineno', 0),
                            _stmt_text(node), via, chain)
                 self.sum.muts.append(ev)
+
+    def _immutable_global(self, qual):
+        """is the module-level name bound (by its only assignment) to an immutable literal: tuple/str/number/frozenset?"""
+        modname, _, name = qual.rpartition('.')
+        mi = self.m.modules.get(modname)
+        if mi is None:
+            return False
+        sts = mi.assigns.get(name, [])
+        if len(sts) != 1 or not isinstance(sts[0], ast.Assign):
+            return False
+        v = sts[0].value
+
+        def imm(n):
+            if isinstance(n, ast.Constant):
+                return True
+            if isinstance(n, ast.Tuple):
+                return all(imm(e) for e in n.elts)
+            if isinstance(n, ast.Call) and dotted(n.func) == 'frozenset':
+                return True
+            if isinstance(n, ast.BinOp):
+                return imm(n.left) and imm(n.right)
+            if isinstance(n, ast.Name):
+                return self._immutable_global(f'{modname}.{n.id}')
+            return False
+        return imm(v)
 
     def consume(self, iter_node, sources, st, env):
         """Iterating (zip/for/next) over a module-level iterator object advances shared state."""
